@@ -75,7 +75,7 @@ def ob_no_ambient(run, oid, cfg="lib"):
 def ob_seed(run, oid):
     prog = run.program("lib")
     o = run.ob(oid, "the per-call RNG is seeded only from (slot, slice) resp. (constant label, slot, shred index)",
-               "a seed that ignores one of its inputs repeats relays across slices; a seed with extra inputs (own id, time) differs between nodes", floor=2)
+               "a seed that ignores one of its inputs repeats relays across slices; a seed with extra inputs (own id, time) differs between nodes", floor=6)
     for fn, want, forbid in ((ROTOR + "::sample_relays", {"slot", "slice"}, set()), (TREE + "::new", {"slot", "shred"}, {"own_id", "validators", "fanout"})):
         b = prog.body(fn)
         if b is None:
@@ -101,6 +101,23 @@ def ob_seed(run, oid):
                 if any(isinstance(t, tuple) and t and t[0] == "call" and t[1].endswith("from_seed") for t in mir.walk(b.operand_term(a))):
                     ok = True
         o.check(ok, "%s|uses-seeded-rng" % fshort(fn), "the committee / shuffle is drawn from that seeded RNG", c.span)
+
+    # RNGs created while *constructing* a sampler (not per call) must be seeded by constants only: every node constructs the
+    # sampler from the same validator set and must obtain the same object
+    n = 0
+    for d in sorted(prog.reachable_from(sorted(constructor_roots(prog)))):
+        cb = prog.bodies[d]
+        if cb.generated:
+            continue
+        for c in cb.calls():
+            if c.name.endswith("::from_seed") or c.name.endswith("::seed_from_u64"):
+                n += 1
+                pv = cb.provenance(cb.operand_term(c.args[0]), depth=10)
+                impure = sorted(x for x in pv["calls"] if not x.rsplit("::", 1)[-1] in ("to_le_bytes", "to_be_bytes", "from", "into", "clone"))
+                ok = bool(pv["consts"]) and not pv["params"] and not pv["upvars"] and not pv["fields"] and not impure
+                o.check(ok, "%s|construction-seed|constant" % fshort(d), "an RNG used while constructing a sampler is seeded from constants only", c.span,
+                        {"consts": sorted(map(str, pv["consts"]))[:4], "calls": impure[:4], "params": sorted(pv["params"]), "fields": sorted(map(str, pv["fields"]))[:4]})
+    o.check(n >= 1, "constructors|seeded-rngs-found", "%d seeded RNG(s) in sampler constructors examined" % n, "")
 
 
 def ob_cache(run, oid):
@@ -136,17 +153,45 @@ def ob_relay_set(run, oid):
     o = run.ob(oid, "relay broadcast goes to every validator except the relay itself and the leader; tree children are taken by position from the shuffled order",
                "excluding anyone else loses shreds; including the leader/relay duplicates them", floor=3)
     fam = prog.family(ROTOR + "::broadcast_if_relay")
-    excl = set()
+    # the recipient filter: a closure of the async body whose every captured value is compared (!=) with the candidate index;
+    # the captured values are the sampled relay and the slot's leader (identified by where they come from, not by name)
+    excl = []
+    filt = None
+    from engine import paths
     for b in fam:
         if b.is_closure and "closure#0}::{closure" in b.defpath:
-            for c in b.calls():
-                if c.name.rsplit("::", 1)[-1] == "ne":
-                    for a in c.args:
-                        t = b.operand_term(a)
-                        for x in mir.walk(t):
+            try:
+                tt = paths.bool_truth_table(b, prog)
+            except Exception:
+                tt = None
+            if tt is None:
+                continue
+            terms, table = tt
+            ups = set()
+            eqs = 0
+            for t in terms:
+                if isinstance(t, tuple) and t and t[0] == "eq":
+                    eqs += 1
+                    for side in t[1]:
+                        for x in mir.walk(side):
                             if isinstance(x, tuple) and x and x[0] == "upvar":
-                                excl.add(x[1])
-    o.check(excl == {"relay", "leader"}, "broadcast_if_relay|excludes", "the recipient filter excludes exactly {relay, leader}", fam[0].span if fam else "", {"excluded": sorted(excl)})
+                                ups.add(x[1])
+            # the filter keeps a candidate exactly when it differs from every captured value
+            keeps_only_all_different = eqs == len(terms) and all(v == (not any(asg)) for asg, v in table.items())
+            if ups and keeps_only_all_different:
+                filt = b
+                excl = sorted(ups)
+    srcs = {}
+    if filt is not None:
+        for pb in fam:
+            for (bb, i, dst, rv, sp) in pb.assignments():
+                t = pb.rvalue_term(rv)
+                if isinstance(t, tuple) and t and t[0] == "closure" and t[1] == filt.defpath:
+                    for (nm, ot) in t[2]:
+                        pv = pb.provenance(ot, depth=8)
+                        srcs[nm] = "relay" if any(x.endswith("::sample_relay") for x in pv["calls"]) else "leader" if any(x.endswith("EpochInfo::leader") for x in pv["calls"]) else "other"
+    ok = filt is not None and len(excl) == 2 and sorted(srcs.get(n, "?") for n in excl) == ["leader", "relay"] and len(filt.captures) == 2
+    o.check(ok, "broadcast_if_relay|excludes", "the recipient filter excludes exactly the sampled relay and the slot's leader", fam[0].span if fam else "", {"excluded": {n: srcs.get(n) for n in excl}})
     main = [b for b in fam if b.is_closure and b.defpath.endswith("broadcast_if_relay::{closure#0}")]
     for b in main:
         snd = [c for c in b.calls() if c.callee.endswith("Network::send_to_many")]
